@@ -88,7 +88,8 @@ impl Pool {
 		}
 	}
 	fn loadable(&self, i: u16, bsms: &Option<Vec<(u16, Vec<u16>)>>, depth: usize) -> R<GLoadable> {
-		if depth > 64 { return Err("bootstrap argument nesting too deep (cyclic?)".into()); }
+		// deliberate limit of the reader (duke cb2ce34): MAX_BOOTSTRAP_ARGUMENT_DEPTH = 16
+		if depth > 16 { return Err("bootstrap arguments nested deeper than 16 levels (cyclic?)".into()); }
 		Ok(match self.get(i)? {
 			Cp::Int(v) => GLoadable::Int(*v), Cp::Float(v) => GLoadable::Float(*v), Cp::Long(v) => GLoadable::Long(*v), Cp::Double(v) => GLoadable::Double(*v),
 			Cp::Class(_) => GLoadable::Cls(self.class(i)?), Cp::Str(n) => GLoadable::Str(self.utf8(*n)?), Cp::Handle(..) => GLoadable::Handle(self.handle(i)?),
@@ -153,7 +154,8 @@ fn read_pool(r: &mut Rd) -> R<Pool> {
 struct Ctx<'a> { p: &'a Pool, bsms: Option<Vec<(u16, Vec<u16>)>> }
 
 fn elem(r: &mut Rd, p: &Pool, depth: usize) -> R<GElem> {
-	if depth > 200 { return Err("element value nesting too deep".into()); }
+	// deliberate limit of the reader (duke 835fdd2): MAX_ELEMENT_VALUE_DEPTH = 255, checked when a level is entered
+	let enter = |d: usize| -> R<usize> { if d + 1 > 255 { Err("element values nested deeper than 255 levels".into()) } else { Ok(d + 1) } };
 	let tag = r.u8()?;
 	let int_at = |p: &Pool, i: u16| -> R<i32> { match p.get(i)? { Cp::Int(v) => Ok(*v), o => Err(format!("not int: {o:?}")) } };
 	Ok(match tag {
@@ -168,14 +170,18 @@ fn elem(r: &mut Rd, p: &Pool, depth: usize) -> R<GElem> {
 		b's' => GElem::Str(p.utf8(r.u16()?)?),
 		b'e' => GElem::Enum(p.utf8(r.u16()?)?, p.utf8(r.u16()?)?),
 		b'c' => GElem::Cls(p.utf8(r.u16()?)?),
-		b'@' => GElem::Anno(anno(r, p, depth + 1)?),
-		b'[' => { let n = r.u16()?; let mut v = Vec::new(); for _ in 0..n { v.push(elem(r, p, depth + 1)?); } GElem::Arr(v) }
+		b'@' => { let ty = p.utf8(r.u16()?)?; let d = enter(depth)?; GElem::Anno(anno_pairs(r, p, ty, d)?) }
+		b'[' => { let d = enter(depth)?; let n = r.u16()?; let mut v = Vec::new(); for _ in 0..n { v.push(elem(r, p, d)?); } GElem::Arr(v) }
 		t => return Err(format!("bad element tag {t}")),
 	})
 }
 
 fn anno(r: &mut Rd, p: &Pool, depth: usize) -> R<GAnno> {
 	let ty = p.utf8(r.u16()?)?;
+	anno_pairs(r, p, ty, depth)
+}
+
+fn anno_pairs(r: &mut Rd, p: &Pool, ty: Js, depth: usize) -> R<GAnno> {
 	let n = r.u16()?;
 	let mut pairs = Vec::new();
 	for _ in 0..n { let name = p.utf8(r.u16()?)?; pairs.push((name, elem(r, p, depth)?)); }
